@@ -302,8 +302,10 @@ Fixpoint fold_ints (e : sexpr) : sexpr :=
    operands are Python numbers is computed by CPython, not by NumPy: `1/0` raises ZeroDivisionError (NumPy: inf and a
    warning), `10.0 ** 400` raises OverflowError, `(-8) ** 0.5` is complex, `10 ** 400` is an int no float can hold.
    isnp e: e is CERTAINLY a NumPy scalar.  py_ok e: no division whose operands may both be Python numbers unless the
-   divisor is a non-zero literal, no power whose operands may both be Python numbers.  A statement that is not py_ok is outside
-   the subset (fail-closed); + - * abs max min and comparisons of Python numbers behave like the float operations. *)
+   divisor is a literal that is non-zero as a float, no power whose operands may both be Python numbers, no integer literal of
+   more than 300 digits, no + - * and no comparison of two Python INT expressions that fold_ints left unfolded (beyond 2^53
+   CPython computes them exactly, a float operation rounds).  A statement that is not py_ok is outside the subset
+   (fail-closed); the remaining + - * abs max min and comparisons of Python numbers behave like the float operations. *)
 Fixpoint isnp (e : sexpr) : bool :=
   match e with
   | ENum _ => false
@@ -316,25 +318,43 @@ Fixpoint isnp (e : sexpr) : bool :=
   end.
 Fixpoint has_nonzero_digit (s : string) : bool :=
   match s with "" => false | String c r => (is_digit c && negb (Ascii.eqb c "0")) || has_nonzero_digit r end.
+Fixpoint str_prefix (n : nat) (s : string) : string :=
+  match n, s with S k, String c r => String c (str_prefix k r) | _, _ => "" end.
+(* a literal that is certainly not zero AS A FLOAT: a non-zero digit among its first 300 characters (so at least 1e-300;
+   `0.<400 zeros>1` underflows to 0.0 and 1 / it raises ZeroDivisionError) *)
 Definition nonzero_lit (e : sexpr) : bool :=
   match e with
-  | ENum s => has_nonzero_digit s
-  | ENeg (ENum s) => has_nonzero_digit s
+  | ENum s => has_nonzero_digit (str_prefix 300 s)
+  | ENeg (ENum s) => has_nonzero_digit (str_prefix 300 s)
   | _ => false
   end.
+(* an integer literal every float operation accepts: at most 300 digits (`X * 1<400 zeros>` raises OverflowError: int too
+   large to convert to float) *)
+Definition lit_ok (s : string) : bool := negb (lit_dots s =? 0) || (String.length s <=? 300).
+(* an expression CPython computes on Python INTS (exactly, however large): what fold_ints leaves of it is outside 2^53 *)
+Fixpoint isint (e : sexpr) : bool :=
+  match e with
+  | ENum s => int_lit s
+  | ENeg a | EAbs a => isint a
+  | EBin (OAdd | OSub | OMul) a b => isint a && isint b
+  | EMax a b | EMin a b => isint a && isint b
+  | _ => false
+  end.
+Definition small_lit (e : sexpr) : bool := match e with ENum s => int_lit s && small_int (int_val s) | _ => false end.
 Fixpoint py_ok (e : sexpr) : bool :=
   match e with
-  | ENum _ | ERead _ _ => true
+  | ENum s => lit_ok s
+  | ERead _ _ => true
   | ENeg a | EAbs a | ECall1 _ a => py_ok a
   | EBin o a b =>
     py_ok a && py_ok b &&
     match o with
     | ODiv => isnp a || isnp b || nonzero_lit b
     | OPow => isnp a || isnp b
-    | _ => true
+    | _ => negb (isint a && isint b)      (* `9007199254740993 * 3`: exact on ints, rounded on floats *)
     end
   | EMax a b | EMin a b | ECall2 _ a b => py_ok a && py_ok b
-  | EIf _ l r a b => py_ok l && py_ok r && py_ok a && py_ok b
+  | EIf _ l r a b => py_ok l && py_ok r && py_ok a && py_ok b && (negb (isint l && isint r) || (small_lit l && small_lit r))
   end.
 
 Section Tree.
